@@ -44,6 +44,12 @@ MUTATORS = {
     "to_R": lambda c: c.choose_trigonal_lattice("R"),
 }
 ALPHABET = list(QUERIES) + list(MUTATORS) + ["deepcopy"]
+NOT_TRIGONAL = ("disorder_P1",)
+
+
+def alphabet_for(kind):
+    """the trigonal switches are only defined for the R-lattice groups (elsewhere they are an error by contract)"""
+    return [op for op in ALPHABET if op not in MUTATORS] if kind in NOT_TRIGONAL else ALPHABET
 
 
 # ---- projections of exported text through the reference readers ---------------------------------
@@ -141,8 +147,19 @@ def near_axis_r3():
     return xtal.make_crystal(146, "H", cell, ["Ar", "O", "H", "H"], frac, labels=["Ar1", "O1", "H1", "H2"], occupation=[1 / 3, 1.0, 1.0, 1.0])
 
 
+def disorder_p1():
+    """P1, triclinic: substitutional disorder (Cu 0.6 / Au 0.4 on one position, 0.002 A apart: inside the 0.01 merge tolerance of
+    unit_cell_atoms) next to a water; occupancies handed over as an ndarray, as the file readers do"""
+    frac = np.array([[0.1, 0.2, 0.3], [0.1003, 0.2, 0.3], [0.5, 0.5, 0.5], [0.6, 0.55, 0.5], [0.42, 0.57, 0.5]])
+    return xtal.make_crystal(1, "", (7.0, 8.0, 9.0, 80.0, 95.0, 100.0), ["Cu", "Au", "O", "H", "H"], frac,
+                             labels=["Cu1", "Au1", "O1", "H1", "H2"], occupation=np.array([0.6, 0.4, 1.0, 1.0, 1.0]))
+
+
 def initial(kind):
     from chmpy.crystal import Crystal
+
+    if kind == "disorder_P1":
+        return disorder_p1()
 
     if kind == "ammonia_water_H":
         return ammonia_water_r3()
@@ -244,7 +261,7 @@ def replay_history(kind, hist, hold=False):
 def expand(part, job):
     """all transitions out of one state (kind, hist): executed on the real object, invariant evaluated"""
     kind, hist = job
-    for op in ALPHABET:
+    for op in alphabet_for(kind):
         c, held = replay_history(kind, hist, hold=True)
         post_digest_holder.pop("d", None)
         c = step(part, c, op, hist, kind, check=True)
@@ -268,7 +285,7 @@ def aliasing_worker(part, job):
     answers are still held are merged); here every history up to the bound is executed WITHOUT deduplication.
     """
     kind, prefix = job
-    for op in ALPHABET:
+    for op in alphabet_for(kind):
         c = initial(kind)
         held = []
         hist = list(prefix) + [op]
@@ -292,7 +309,7 @@ def aliasing_worker(part, job):
 
 
 def run(ctx):
-    kinds = ["water_H", "water_R", "water_H_cif", "r3c_example", "ammonia_water_H", "near_axis_H"]
+    kinds = ["water_H", "water_R", "water_H_cif", "r3c_example", "ammonia_water_H", "near_axis_H", "disorder_P1"]
     max_depth = 8 if ctx.thorough else 6
     cap = 20000 if ctx.thorough else 1500
     ctx.bounds = {"alphabet": ALPHABET, "structures": kinds, "max_depth": max_depth, "state_cap": cap}
@@ -328,7 +345,7 @@ def run(ctx):
     import itertools as it
 
     alias_depth = 2 if ctx.thorough else 2
-    prefixes = [(k, list(h)) for k in kinds for L in range(1, alias_depth + 1) for h in it.product(ALPHABET, repeat=L)
+    prefixes = [(k, list(h)) for k in kinds for L in range(1, alias_depth + 1) for h in it.product(alphabet_for(k), repeat=L)
                 if any(x in QUERIES for x in h) and (L == 1 or k in ("water_H", "ammonia_water_H") or ctx.thorough)]
     ctx.pmap(aliasing_worker, prefixes)
     ctx.bounds["aliasing_histories"] = "%d prefixes of length <= %d (no deduplication) x %d final operations" % (len(prefixes), alias_depth, len(ALPHABET))
